@@ -6,14 +6,15 @@
     input is structurally consistent, warn-mode decoding emits exactly the events of the lenient field-by-field
     interpretation with one warning directly after each offending event, and accepts (Proofs/Sim4-5, mode false).
     The same for COMMANDS and RESPONSES (Proofs/Sim7-10.v; tables passing [msg_tables_ok]).
-    NOT PROVED: the values-only clause for the stream root; that warn mode never aborts and that after a recovered overrun every byte is
+    and for STREAMS below the model's loop bound (Proofs/Sim11.v): [C08_values_only_every_root].
+    NOT PROVED: that warn mode never aborts and that after a recovered overrun every byte is
     shown, skipped or listed (both were false of the pinned commit, see the fixed entries of known_findings.json);
     decided by the oracle (no escaping exception other than the two allowed ValueConstraintViolatedErrors; tiling
     recomputed from events and warnings) and the model correspondence in warn mode.
     Statement file: theorem statements, [exact], Print Assumptions only. *)
 From Coq Require Import ZArith List String Bool.
 From TV Require Import Layout.Types gen.Tables gen.Pinned Model.Monad Model.Constraints Model.Message Model.Pump Spec.Value Spec.Message
-  Model.Show Proofs.Account Proofs.Tiling Proofs.OpLemmas Proofs.Agree Proofs.Sim5 Proofs.Sim10 Properties.C20.
+  Model.Show Proofs.Account Proofs.Tiling Proofs.OpLemmas Proofs.Agree Proofs.Sim5 Proofs.Sim10 Proofs.Sim11 Properties.C20.
 Import ListNotations.
 Open Scope Z_scope.
 
@@ -62,6 +63,18 @@ Theorem C08_values_only_types_commands_responses_pinned :
     spec_lenient Pinned.T r bs = Some evs -> decode Tables.T false r bs = (evs, OAccepted).
 Proof. intros r bs evs. rewrite C20_pinned. apply root_decodes_lenient. vm_compute. reflexivity. Qed.
 Print Assumptions C08_values_only_types_commands_responses_pinned.
+
+(** values only, EVERY root (streams below the loop bound of the model) *)
+Theorem C08_values_only_every_root :
+  forall T r bs evs, msg_tables_ok T = true -> within_bound r bs ->
+    spec_lenient T r bs = Some evs -> decode T false r bs = (evs, OAccepted).
+Proof. exact any_root_decodes_lenient. Qed.
+Print Assumptions C08_values_only_every_root.
+
+Theorem C08_values_only_every_root_pinned :
+  forall r bs evs, within_bound r bs -> spec_lenient Pinned.T r bs = Some evs -> decode Tables.T false r bs = (evs, OAccepted).
+Proof. intros r bs evs Hb. rewrite C20_pinned. apply any_root_decodes_lenient; [vm_compute; reflexivity|exact Hb]. Qed.
+Print Assumptions C08_values_only_every_root_pinned.
 
 (** non-vacuity: a hash algorithm identifier out of range *)
 Example C08_example_bad_alg :
